@@ -35,8 +35,13 @@ class C10(PropBase):
                     if not v.alias:
                         continue
                     al = rng.choice(list(v.alias))
-                    left = '/'.join(segs[:-1] + [al])
-                    rights = ['/'.join(segs[:-1] + [m]) for m in v.alias[al]]
+                    if rng.random() < 0.4 and len(v.alias) > 1:
+                        al2 = rng.choice([a for a in v.alias if a != al])
+                        left = '/'.join(segs[:-1] + [al + ',' + al2])
+                        rights = ['/'.join(segs[:-1] + [m]) for m in v.alias[al] + v.alias[al2]]
+                    else:
+                        left = '/'.join(segs[:-1] + [al])
+                        rights = ['/'.join(segs[:-1] + [m]) for m in v.alias[al]]
                 elif rule == 'dstar':
                     if len(segs) < 2:
                         continue
